@@ -65,3 +65,32 @@ Print Assumptions C16_duplicate_connect_446.
 Theorem C16_manager_keeps_serving : forall h s, tlocked s = false -> tlocked (fst (trun s h)) = false.
 Proof. exact never_left_locked_run. Qed.
 Print Assumptions C16_manager_keeps_serving.
+
+(* ---------- history level ---------- *)
+From Turn Require Import Common RelayCheck RelayProps C16Check C04TcpCheck TcpIso TcpTrace.
+(* The whole predicate that the correspondence check evaluates on every observed trace of the real server
+   (C16Check: connection ids are announced once and are new; ConnectionAttempt only for peers with a permission;
+   a ConnectionBind succeeds only for an announced id, once, within 30 s of the announcement, by the user of the
+   allocation it was announced to; bytes are delivered only through bound pairs, unmodified, to the other side; the
+   owner's bind of an open connection within its 30 s succeeds; an unbound connection is gone after 30 s; the manager is
+   never wedged; 446 only for a peer this allocation already has) holds on EVERY trace of Model/TcpRelay.v whose
+   connection ids are fresh - cids_fresh: the ids the environment supplies to Connect / inbound-connection events are
+   pairwise different (the server draws 32 random bits and retries while the id belongs to a live connection; an id of a
+   connection that is gone coming back is the event excluded here) - and the runner accepts that trace. *)
+Theorem C16_holds_on_every_model_trace : forall h, cids_fresh [] h -> C16Check.run (tmodel_case h) = (true, true).
+Proof. exact c16_run_on_model. Qed.
+Print Assumptions C16_holds_on_every_model_trace.
+
+(* the hypothesis is satisfiable by a history that exercises announcement, refusal, bind, data, the deadline and teardown *)
+Example C16_trace_example :
+  let c1 := A 1 5000 in let c2 := A 2 5000 in let r1 := A 9 49152 in let r2 := A 9 49153 in let p := A 7 80 in
+  let h := [TAlloc c1 1 r1; TAlloc c2 2 r2; TPerm c2 7; TConnect c1 11 (Some 1%N) (Some p) false true 100;
+            TConnect c1 12 (Some 1%N) (Some p) false true 101; TPeerConn r2 (A 7 81) 102; TPeerConn r2 (A 8 81) 103;
+            TConnBind 900 13 (Some 2%N) (Some 100%N); TConnBind 900 14 (Some 1%N) (Some 100%N); TData 100 true [1; 2; 3]%N;
+            TTick (31 * sec); TConnBind 901 15 (Some 2%N) (Some 102%N); TCloseSide 100 true; TEnd c2] in
+  cids_fresh [] h /\
+  map ts_acts (tc_steps (tmodel_case h)) =
+  [[]; []; []; [TSuccess c1 MConnect 11 (Some 100%N)]; [TError c1 MConnect 12 446]; [TAttempt c2 (A 7 81) 102];
+   [TPeerClosed r2 (A 8 81)]; [TBindError 900 13 400]; [TBindSuccess 900 14 100]; [TDeliver 100 false [1; 2; 3]%N];
+   [TPeerClosed r2 (A 7 81)]; [TBindError 901 15 400]; [TPeerClosed r1 p]; []].
+Proof. cbv zeta. split; [cbn; intuition discriminate|vm_compute; reflexivity]. Qed.
